@@ -70,3 +70,21 @@ package internal
 //@ func GetCallOptions
 //@   ensures[C03,C13] result != nil && fresh(result)
 //@   modifies nothing
+
+// ---- transport_stream.go: UnaryServerTransportStream (C03) ----
+//
+//@ type UnaryServerTransportStream
+//@   guarded_by mu : hdrs, hdrsSent, tlrs, tlrsSent
+//
+//@ func (*UnaryServerTransportStream).GetHeaders
+//@   ensures[C03] result == sts.hdrs
+//@   modifies nothing
+//@ func (*UnaryServerTransportStream).GetTrailers
+//@   ensures[C03] result == sts.tlrs
+//@   modifies nothing
+//@ func (*UnaryServerTransportStream).Finish
+//@   ensures[C03] sts.hdrsSent && sts.tlrsSent
+//@   modifies sts.hdrsSent, sts.tlrsSent
+//@ func (*UnaryServerTransportStream).Method
+//@   ensures[C10] result == sts.Name
+//@   modifies nothing
